@@ -21,7 +21,7 @@ pub enum Val {
 pub fn enc(b: &[u8]) -> String {
     let mut s = String::new();
     for &c in b {
-        if (0x21..=0x7e).contains(&c) && c != b'%' {
+        if (0x21..=0x7e).contains(&c) && c != b'%' && c != b'"' && c != b'\\' {
             s.push(c as char);
         } else {
             s.push_str(&format!("%{:02X}", c));
